@@ -285,6 +285,22 @@ package analysis
 
 // ---------------------------------------------------------------- C11 / C12 : building the type graph
 
+// The search for the package declaring a type is a recursive closure with an early return inside a range over a map:
+// whatever the iteration order, a package that is returned has the import path of the object's package (which is the
+// proved half of the C07 argument recorded for this loop; the other half — go/packages has one *Package per path —
+// is an assumption). Comments of a struct (C16: "attached to the table of the struct whose declaration carries the
+// comment") are then read from THAT package's syntax.
+//@ func PkgSelector.findPackage$lit1
+//@   props C16 C12
+//@   requires pkgsOK(pa) && obj != nil && obj.Pkg() != nil
+//@   ensures result != nil ==> result.PkgPath == obj.Pkg().Path()
+//@   loop pa.Imports.1 invariant true
+
+//@ func PkgSelector.findPackage
+//@   props C16 C12
+//@   requires pkgsOK(rootPackage) && obj != nil && obj.Pkg() != nil
+//@   ensures result != nil && result.PkgPath == obj.Pkg().Path()
+
 // struct comments are read from the syntax tree (position based navigation, outside the verified
 // subset): assumed to be a function of the package and the type
 //@ func fetchStructComments
